@@ -65,7 +65,16 @@ func (d *Disconnect) Unpack(r io.Reader) error {
 		if !ValidateCode(DISCONNECT, d.Code) {
 			return codes.ErrProtocol
 		}
-		return d.Properties.Unpack(bufr, DISCONNECT)
+		if err := d.Properties.Unpack(bufr, DISCONNECT); err != nil {
+			return err
+		}
+		if bufr.Len() != 0 { // bytes left over inside the remaining length
+			return codes.ErrMalformed
+		}
+		return nil
+	}
+	if d.FixHeader.RemainLength != 0 { // a v3 DISCONNECT has no variable header
+		return codes.ErrMalformed
 	}
 	return nil
 }
